@@ -79,7 +79,7 @@ def run(spec, tier, seed, replay_path=None):
     t0 = time.time()
     pid = spec.id
     C.prepare()
-    rundir = C.fresh_dir(os.path.join(C.BUILD, "run", pid))
+    rundir = C.fresh_dir(os.path.join(C.BUILD, "run", "%s-%d" % (pid, os.getpid())))
     broken, concrete = [], []
 
     facts = C.run_srcfacts()
